@@ -1023,6 +1023,8 @@ def getattr_value(it, v, name):
 
         return matmodel.mat_attr(it, v, name)
     if isinstance(v, (int, float)) or is_sym(v):
+        if name in ("all", "any"):
+            return PyFunc(lambda it_: v, f"scalar.{name}")
         if name == "item":
             return PyFunc(lambda it_: v, "scalar.item")
         if name == "ndim":
